@@ -91,6 +91,10 @@ func run(pass *analysis.Pass) (any, error) {
 			return
 		}
 
+		if hasDuplicateConstants(pass, pairs) {
+			return
+		}
+
 		edits := make([]analysis.TextEdit, 0, len(swtch.Body.List)+1)
 		for i, stmt := range swtch.Body.List {
 			stmt := stmt.(*ast.CaseClause)
@@ -143,4 +147,25 @@ func findSwitchPairs(pass *analysis.Pass, expr ast.Expr, pairs *[]*ast.BinaryExp
 	default:
 		return false
 	}
+}
+
+// hasDuplicateConstants reports whether two of the comparisons compare against
+// the same constant: legal in a chain of conditions, but "duplicate case" in a
+// tagged switch.
+func hasDuplicateConstants(pass *analysis.Pass, groups [][]*ast.BinaryExpr) bool {
+	seen := map[string]bool{}
+	for _, group := range groups {
+		for _, cmp := range group {
+			tv, ok := pass.TypesInfo.Types[cmp.Y]
+			if !ok || tv.Value == nil {
+				continue
+			}
+			key := tv.Value.ExactString()
+			if seen[key] {
+				return true
+			}
+			seen[key] = true
+		}
+	}
+	return false
 }
